@@ -190,6 +190,7 @@ Section General.
     - unfold process_deferred. destruct (collect_deferred (deferred s) (options s)) as [upd|e]; [|exact W].
       pose proof (update_wf upd s W) as H.
       destruct (update behave vt vu nested upd s) as [s1 [|u|e]]; exact H.
+    - exact W.
   Qed.
 
   Lemma run_wf ops : forall s, wf s -> wf (run behave vt vu nested ops s).
@@ -601,4 +602,63 @@ Lemma rejected_restores_repaired behave nested o s s' e :
   updateish o = true -> step behave true true nested o s = (s', RErr e) -> restored (options s) (options s').
 Proof.
   intros NR U H. eapply rejected_restores; [exact NR | exact U | exact H | split; intros _; reflexivity].
+Qed.
+
+(* ---------- listener lifetimes: dead weak references ---------- *)
+Lemma somes_app {A} (a b : list (option A)) : somes (a ++ b) = somes a ++ somes b.
+Proof. induction a as [|[x|] t IH]; simpl; [reflexivity | now rewrite IH | exact IH]. Qed.
+
+Lemma somes_kill l rs : somes (map (kill l) rs) = filter (fun x => negb (N.eqb x l)) (somes rs).
+Proof.
+  induction rs as [|[x|] t IH]; simpl; [reflexivity | | exact IH].
+  destruct (N.eqb x l); simpl; [exact IH | now rewrite IH].
+Qed.
+
+Lemma somes_kill_subs l u subs :
+  somes (map fst (filter (fun p => intersects (snd p) u) (map (fun p : option N * list name => (kill l (fst p), snd p)) subs)))
+  = filter (fun x => negb (N.eqb x l)) (somes (map fst (filter (fun p => intersects (snd p) u) subs))).
+Proof.
+  induction subs as [|[[x|] o] t IH]; simpl; [reflexivity | |].
+  - destruct (intersects o u); simpl; [|exact IH].
+    destruct (N.eqb x l); simpl; [exact IH | now rewrite IH].
+  - destruct (intersects o u); simpl; exact IH.
+Qed.
+
+(* a send calls exactly the live callables: dead entries, wherever they sit, change nothing *)
+Definition purge (s : state) : state :=
+  mkState (options s) (deferred s)
+          (filter (fun p => match fst p with Some _ => true | None => false end) (subscriptions s))
+          (filter (fun e => match e with Some _ => true | None => false end) (receivers s)) (log s).
+
+Lemma somes_filter_some {A} (l : list (option A)) :
+  somes (filter (fun e => match e with Some _ => true | None => false end) l) = somes l.
+Proof. induction l as [|[x|] t IH]; simpl; [reflexivity | now rewrite IH | exact IH]. Qed.
+
+Lemma targets_ignore_dead s u : targets (purge s) u = targets s u.
+Proof.
+  unfold targets, purge; simpl. rewrite somes_filter_some. f_equal.
+  induction (subscriptions s) as [|[[x|] o] t IH]; simpl; [reflexivity | |].
+  - destruct (intersects o u); simpl; [now rewrite IH | exact IH].
+  - destruct (intersects o u); simpl; exact IH.
+Qed.
+
+Lemma targets_live_iff s u l :
+  In l (targets s u) <->
+  (exists o, In (Some l, o) (subscriptions s) /\ intersects o u = true) \/ In (Some l) (receivers s).
+Proof.
+  unfold targets. rewrite in_app_iff.
+  assert (HS : forall rs : list (option N), In l (somes rs) <-> In (Some l) rs).
+  { induction rs as [|[x|] t IH]; simpl; [tauto | |].
+    - rewrite IH. split; intros [H|H]; auto; left; congruence.
+    - rewrite IH. split; [auto | intros [H|H]; [discriminate | exact H]]. }
+  rewrite !HS. apply or_iff_compat_r. rewrite in_map_iff. split.
+  - intros [[x o] [E H]]. simpl in E; subst x. apply filter_In in H as [H1 H2]. exists o. auto.
+  - intros [o [H1 H2]]. exists (Some l, o). split; [reflexivity|]. apply filter_In. auto.
+Qed.
+
+(* dropping listener l removes exactly its calls; every other live callable keeps its place and multiplicity *)
+Lemma drop_targets l s u :
+  targets (fst (drop l s)) u = filter (fun x => negb (N.eqb x l)) (targets s u).
+Proof.
+  unfold targets, drop; simpl. rewrite filter_app, somes_kill, somes_kill_subs. reflexivity.
 Qed.
